@@ -86,6 +86,11 @@ def eval_canon(case):
         b = urlref.sem(res, dp)
     except Exception as e:  # noqa
         return [("C01/unparseable-result", "%r -> %r: %r" % (url, res, e))]
+    try:   # 're-parsing the result': also with the parser every caller has at hand
+        from urllib.parse import urlsplit
+        urlsplit(res).port
+    except ValueError as e:
+        out.append(("C01/unparseable-result", "canonicalize_url(%r, quoted=%s) = %r which urllib.parse.urlsplit rejects: %s" % (url, case["quoted"], res, e)))
     for comp, det in compare_sem(a, b, case["strip_fragment"]):
         out.append(("C01/" + comp, "canonicalize_url(%r, quoted=%s, strip_fragment=%s, default_protocol=%r) = %r: %s %s" % (
             url, case["quoted"], case["strip_fragment"], dp, res, comp, det)))
